@@ -45,7 +45,21 @@ namespace
         uint64_t capacity = 1u << 20;
         unsigned junk = 0xa5;
         double fail_rate = 0; // informational: the faults themselves are attached to the ops
+        int new_handler = 0; // process-wide std::new_handler during the run: 0 none, 1 returns on its first call per op then throws bad_alloc, 2 throws bad_alloc
     };
+    const char* NHNAME[3] = { "none", "returns_once_then_throws", "throws" };
+
+    // the simulated application's new_handler (ambient process state an allocator may consult, like operator new does)
+    int g_nh_mode = 0;
+    unsigned g_nh_calls_in_op = 0;
+    uint64_t g_nh_calls = 0;
+    void sim_new_handler()
+    {
+        ++g_nh_calls;
+        if (g_nh_mode == 1 && g_nh_calls_in_op++ == 0)
+            return; // "I released what I could, try again"
+        throw std::bad_alloc();
+    }
 
     struct Op
     {
@@ -86,10 +100,12 @@ namespace
     Counter c_runs("sim", "heap_lifetimes"), c_heap_ops("sim", "heap_requests"), c_client_calls("sim", "client_calls");
     Counter fc_coin("fault_configured", "enomem_coin"), fc_afterk("fault_configured", "enomem_after_k"), fc_clobber("fault_configured", "memptr_clobbered_on_failure"),
         fc_huge("fault_configured", "huge_request"), fc_overflow("fault_configured", "overflow_request"), fc_zero("fault_configured", "zero_size_request"),
-        fc_vecfail("fault_configured", "enomem_inside_vector_op"), fc_capacity("fault_configured", "small_capacity_heap");
+        fc_vecfail("fault_configured", "enomem_inside_vector_op"), fc_capacity("fault_configured", "small_capacity_heap"),
+        fc_persist("fault_configured", "enomem_persistent(every_request_of_the_op)"), fc_twice("fault_configured", "enomem_twice_in_a_row"), fc_nh("fault_configured", "new_handler_installed");
     Counter ff_injected("fault_fired", "enomem_injected"), ff_capacity("fault_fired", "enomem_capacity"), ff_clobber("fault_fired", "memptr_clobbered_on_failure"),
         ff_overflow("fault_fired", "overflow_request"), ff_zero_null("fault_fired", "zero_size_returned_null"), ff_zero_unique("fault_fired", "zero_size_returned_unique"),
-        ff_vecfail("fault_fired", "enomem_inside_vector_op"), ff_reuse("fault_fired", "address_reused_immediately");
+        ff_vecfail("fault_fired", "enomem_inside_vector_op"), ff_reuse("fault_fired", "address_reused_immediately"),
+        ff_multi("fault_fired", "enomem_more_than_once_in_one_op"), ff_nh("fault_fired", "new_handler_invoked");
     Counter cl_alloc_ok("clause", "allocate_returned(aligned,in_live_block,no_overlap)"), cl_alloc_throw("clause", "allocate_threw(bad_alloc,nothing_leaked)"),
         cl_overflow("clause", "unrepresentable_size_must_throw"), cl_dealloc("clause", "deallocate(exactly_one_block_died)"), cl_verify("clause", "verify_pattern_intact"),
         cl_conserve("clause", "conservation_after_op"), cl_end("clause", "end_of_history(no_live_block,no_bad_free)"), cl_eq("clause", "operator==_iff_alignments_equal"),
@@ -135,6 +151,11 @@ namespace
             make_clients_default(clients);
             for (size_t i = before; i < clients.size(); ++i)
                 default_clients.push_back(i);
+        }
+        ~C18Harness()
+        {
+            for (ClientBase* c : clients)
+                delete c; // keeps LeakSanitizer's report (real-heap configuration) limited to blocks the allocator under test lost
         }
         void configure(const sim::Params& p)
         {
@@ -237,6 +258,9 @@ namespace
                 ++fc_capacity;
             s.junk = (unsigned)rng.pick<unsigned>({ 0x00, 0xa5, 0xff, 0xcd });
             s.fail_rate = rng.pick<double>({ 0.0, 0.0, 0.01, 0.1, 0.5 });
+            s.new_handler = rng.chance(1, 4) ? 1 + (int)rng.below(2) : 0;
+            if (s.new_handler)
+                ++fc_nh;
             int64_t after_k = rng.chance(1, 3) && s.fail_rate > 0 ? (int64_t)rng.below(12) : -1;
             // a run works with a small number of clients so that interleavings between them are dense
             unsigned n_clients = 1 + (unsigned)rng.below(4);
@@ -271,6 +295,15 @@ namespace
                     op.clobber = rng.coin();
                     if (!op.fault.empty() && op.clobber)
                         ++fc_clobber;
+                    if (!op.fault.empty())
+                    {
+                        // transient (first request only), twice in a row, or persistent for the whole op (matters to implementations that retry)
+                        op.fail_mask = rng.pick<uint64_t>({ 1, 1, 3, ~0ull });
+                        if (op.fail_mask == 3)
+                            ++fc_twice;
+                        if (op.fail_mask == ~0ull)
+                            ++fc_persist;
+                    }
                 }
                 else if ((x -= w_alloc) < w_dealloc)
                 {
@@ -428,10 +461,36 @@ namespace
                     out.violate("C18/" + dp.substr(0, dp.find(':')), dp);
             }
             log.rec("setup", (uint64_t)plan.setup.reuse, plan.setup.exact_align, plan.setup.zero_null, plan.setup.capacity);
+            g_nh_mode = plan.setup.new_handler;
+            g_nh_calls = 0;
+            struct HandlerGuard
+            {
+                std::new_handler old;
+                explicit HandlerGuard(int mode)
+                    : old(std::set_new_handler(mode ? sim_new_handler : nullptr))
+                {
+                }
+                ~HandlerGuard() { std::set_new_handler(old); }
+            } handler_guard(plan.setup.new_handler);
 
             for (const Op& op : plan.ops)
             {
                 ++out.ops_executed;
+                g_nh_calls_in_op = 0;
+                const uint64_t nh_before = g_nh_calls;
+                struct NhNote
+                {
+                    sim::Log& log;
+                    uint64_t before;
+                    ~NhNote()
+                    {
+                        if (g_nh_calls != before)
+                        {
+                            ++ff_nh;
+                            log.rec("new_handler", g_nh_calls - before);
+                        }
+                    }
+                } nh_note { log, nh_before };
                 ClientBase& c = *clients[op.client % clients.size()];
                 std::vector<Slot>& slots = rs.slots[op.client % clients.size()];
                 unsigned fired_kind = 0;
@@ -444,11 +503,13 @@ namespace
                     uint64_t id_before = h.next_id;
                     size_t live_before = h.live_blocks();
                     bool others_live = live_before > 0;
-                    h.begin_call(op.fault.empty() ? 0 : 1, op.clobber);
+                    h.begin_call(op.fault.empty() ? 0 : (op.fail_mask ? op.fail_mask : 1), op.clobber);
                     AllocResult r = c.allocate((size_t)op.n);
                     unsigned __int128 bytes = (unsigned __int128)op.n * es;
                     bool representable = bytes <= (unsigned __int128)SIZE_MAX;
                     bool heap_refused = (h.injected_fired + h.capacity_fired) > 0;
+                    if (h.injected_fired + h.capacity_fired > 1)
+                        ++ff_multi;
                     if (h.injected_fired)
                     {
                         any_fault = true;
@@ -851,6 +912,7 @@ namespace
             Value s = Value::object();
             s.set("reuse", REUSENAME[plan.setup.reuse]).set("exact_align", plan.setup.exact_align).set("zero", plan.setup.zero_null ? "null" : "unique");
             s.set("capacity", (unsigned long long)plan.setup.capacity).set("junk", plan.setup.junk).set("fail_rate", plan.setup.fail_rate);
+            s.set("new_handler", NHNAME[plan.setup.new_handler % 3]);
             o.set("setup", s);
             Value ops = Value::array();
             for (const Op& op : plan.ops)
@@ -866,7 +928,7 @@ namespace
                     if (op.fault.empty())
                         j.set("fault", Value());
                     else
-                        j.set("fault", Value::object().set("kind", op.fault));
+                        j.set("fault", Value::object().set("kind", op.fault).set("requests_refused", op.fail_mask == ~0ull ? Value("all") : Value((unsigned long long)(op.fail_mask == 3 ? 2 : 1))));
                     // what the heap does to *memptr if this request fails (injected or by genuine exhaustion)
                     j.set("memptr_on_failure", op.clobber ? "clobber" : "keep");
                     break;
@@ -906,6 +968,11 @@ namespace
             plan.setup.capacity = s.at("capacity").as_u64();
             plan.setup.junk = (unsigned)s.get_u64("junk", 0xa5);
             plan.setup.fail_rate = s.has("fail_rate") ? s.at("fail_rate").as_double() : 0;
+            {
+                std::string nh = s.get_str("new_handler", "none");
+                plan.setup.new_handler = nh == NHNAME[1] ? 1 : nh == NHNAME[2] ? 2
+                                                                                : 0;
+            }
             for (const Value& j : o.at("ops").a)
             {
                 Op op;
@@ -924,7 +991,13 @@ namespace
                     op.n = j.at("n").as_u64();
                     op.n_family = j.get_str("family", "");
                     if (j.has("fault") && j.at("fault").type == Value::Object)
+                    {
                         op.fault = j.at("fault").get_str("kind", "enomem_coin");
+                        const Value& f = j.at("fault");
+                        op.fail_mask = 1;
+                        if (f.has("requests_refused"))
+                            op.fail_mask = f.at("requests_refused").type == Value::String ? ~0ull : (f.at("requests_refused").as_u64() >= 2 ? 3 : 1);
+                    }
                     op.clobber = j.get_str("memptr_on_failure", "keep") == "clobber";
                 }
                 else if (op.kind == OP_COMPARE)
@@ -985,6 +1058,12 @@ namespace
                 s.zero_null = false;
                 with_setup(s);
             }
+            if (p.setup.new_handler)
+            {
+                Setup s = p.setup;
+                s.new_handler = 0;
+                with_setup(s);
+            }
             if (p.setup.capacity != (64u << 20))
             {
                 Setup s = p.setup;
@@ -1012,7 +1091,14 @@ namespace
                     {
                         Op o2 = op;
                         o2.fault.clear();
+                        o2.fail_mask = 0;
                         push_op(o2);
+                        if (op.fail_mask > 1)
+                        {
+                            Op o4 = op;
+                            o4.fail_mask = op.fail_mask == 3 ? 1 : 3;
+                            push_op(o4);
+                        }
                         if (op.clobber)
                         {
                             Op o3 = op;
